@@ -46,7 +46,7 @@ lookup_property(const std::string& id, const std::string& variant) {
         std::string, vf::Property (*)(const std::string&)>
         table = {
             {"C01", &prop_C01}, {"C02", &prop_C02}, {"C03", &prop_C03},
-            {"C04", &prop_C04}, {"C06", &prop_C06}, {"C07", &prop_C07}, {"C08", &prop_C08}, {"C10", &prop_C10}, {"C15", &prop_C15},
+            {"C04", &prop_C04}, {"C06", &prop_C06}, {"C07", &prop_C07}, {"C08", &prop_C08}, {"C10", &prop_C10}, {"C12", &prop_C12}, {"C13", &prop_C13}, {"C14", &prop_C14}, {"C15", &prop_C15},
             {"C17", &prop_C17},
         };
     auto it = table.find(id);
